@@ -55,6 +55,8 @@ def _iter_cap(node) -> int:
         for nm in ("visited",):
             if nm in node.names:
                 return node.f(nm).cap
+        if node.tag == "VecIntoIter":
+            return 4
         if node.tag == "BRange":
             return 8
         if node.tag == "Range":
@@ -125,6 +127,8 @@ def emit_next(tr, inst, it: Loc, dest: Loc):
         return
     # base iterators: dispatch to the registered model for their tag
     tag = getattr(n, "tag", None)
+    if tag == "KMapIter" and n.extra.get("byvalue"):
+        return REG.lookup("<IntoIter as Iterator>::next")(tr, ICtx(tr, inst, "<IntoIter as Iterator>::next", [VRef(it.node, it.idxs)], dest))
     key = {"SetIter": "<Iter as Iterator>::next", "KMapIter": "Iter::next:KMapIter", "Range": "<Range as Iterator>::next",
            "BRange": "<Range as Iterator>::next"}.get(tag)
     if key is None:
@@ -156,6 +160,20 @@ def _alloc_opt_like(tr, inst, it: Loc, name):
         raise TranslateError("nested copied() adaptor item layout")
     if n.kind == "struct" and n.tag == "Range":
         return tr.alloc(parse_type("Option<usize>"), name, [], tr.cur.storage)
+    if n.kind == "struct" and n.tag == "KMapIter":
+        e = tr.make_enum(None, name, [], tr.cur.storage, [("None", []), ("Some", [])])
+        tup = StructN(None, name + "_Some_0", [], tr.cur.storage)
+        if n.extra.get("byvalue"):
+            m = tr.deref(VLoc(Loc(n.f("map"), it.idxs)))
+            tup.fields.append(tr.clone(m.node.f("keys").elem, name + "_k", [], tr.cur.storage))
+            tup.fields.append(tr.clone(m.node.f("vals").elem, name + "_v", [], tr.cur.storage))
+        else:
+            tup.fields.append(RefN(None, name + "_kr", [], tr.cur.storage))
+            tup.fields.append(RefN(None, name + "_vr", [], tr.cur.storage))
+        tup.names += ["0", "1"]
+        e.variants[1][1].fields.append(tup)
+        e.variants[1][1].names.append("0")
+        return e
     raise TranslateError(f"Option<Item> layout for iterator {n.name} (tag {getattr(n, 'tag', None)})")
 
 
